@@ -23,7 +23,7 @@ RULE = ('one evaluation = one path = one expression shape x one class of atom va
 BOUNDS = {
     'quick': 'all expression trees of depth <= 2 over {atom, \\not t, \\( t \\), t \\and t, t \\or t} (61 shapes) with atoms rotated over '
              '{\\boolean, integer comparison with symbolic digits and relation, \\isodd, \\equal, \\isundefined}; \\AND/\\OR/\\NOT spellings; \\whiledo with bound 0..6',
-    'thorough': 'depth <= 3 trees with <= 5 atoms (all shapes), depth-4 left/right chains, redundant parentheses, \\lengthtest atoms with symbolic digits and units pt/mm/cm, nested \\whiledo',
+    'thorough': 'depth <= 3 trees with <= 5 atoms (a seed-rotated third of the 4752 shapes per run), depth-4 left/right chains, redundant parentheses, \\lengthtest atoms with symbolic digits and units pt/mm/cm, nested \\whiledo',
 }
 ASSUMPTIONS = ['\\not binds tightest, \\and/\\or have equal precedence and associate left to right (property text); the linearisation parenthesises '
                'a binary right operand and a binary operand of \\not so that the spelled expression denotes the generated tree',
@@ -265,7 +265,7 @@ def jobs(tier, seed):
 
     def fam(family, chunk, spelling='lower', stride=1):
         n = len(shapes(family))
-        for lo in range(0, n, chunk * stride):
+        for lo in range((seed % stride) * chunk if stride > 1 else 0, n, chunk * stride):
             J.append(dict(harness='h_expr', params=dict(family=family, lo=lo, hi=min(n, lo + chunk), spelling=spelling),
                           label='%s[%d:%d] %s' % (family, lo, min(n, lo + chunk), spelling)))
     fam('d2', 4)
@@ -276,7 +276,7 @@ def jobs(tier, seed):
         fam('d2', 4, 'upper', stride=3)
     else:
         fam('d2', 4, 'upper')
-        fam('d3', 12)
+        fam('d3', 12, stride=3)
         fam('chains4', 8)
         J.append(dict(harness='h_while', params=dict(nested=True), label='whiledo nested'))
     return J
